@@ -695,6 +695,9 @@ func c23EndToEnd(t *testing.T, r *verifrt.Run, rng *rand.Rand, corpus []c23Frame
 	var seen []c23Seen
 	var echo atomic.Bool
 	handler := func(ctx context.Context, _ Connection, req proto.Message) (proto.Message, error) {
+		// read the mode before publishing the observation: the driver changes it
+		// only after it has seen all observations of the current exchange
+		doEcho := echo.Load()
 		s := c23Seen{msg: proto.Clone(req)}
 		if md, ok := FromContext(ctx); ok && md != nil {
 			s.hasMD = true
@@ -705,7 +708,7 @@ func c23EndToEnd(t *testing.T, r *verifrt.Run, rng *rand.Rand, corpus []c23Frame
 		mu.Lock()
 		seen = append(seen, s)
 		mu.Unlock()
-		if !echo.Load() {
+		if !doEcho {
 			return nil, nil // fire-and-forget exchange: no response frame
 		}
 		return req, nil
@@ -834,6 +837,8 @@ func c23EndToEnd(t *testing.T, r *verifrt.Run, rng *rand.Rand, corpus []c23Frame
 // ---------------------------------------------------------------------------
 // hostile inputs
 // ---------------------------------------------------------------------------
+
+const c23ReaderMaxAnnounce = 2 << 20
 
 var c23LenValues = []uint32{0, 1, 7, 8, 11, 12, 255, 256, 65535, 65536, 1 << 20, 1<<31 - 1, 1 << 31, 1<<32 - 1}
 
@@ -1069,6 +1074,7 @@ func c23Hostile(r *verifrt.Run, rng *rand.Rand, cl *Client, corpus []c23Frame, a
 	pool := NewFramePool()
 	classes := map[string]int64{}
 	var rejected, accepted int64
+	allocViolations := 0
 
 	type hostileIn struct {
 		frame []byte // nil: section-only input
@@ -1136,7 +1142,19 @@ func c23Hostile(r *verifrt.Run, rng *rand.Rand, cl *Client, corpus []c23Frame, a
 		}
 
 		in := hin.frame
-		if alloc {
+		// what the frame reader gets: the same bytes, but an announced length
+		// above 2 MiB is clamped to about 2 MiB (any value above the 4 KiB limit is
+		// the same case for the reader; a reader that allocates what is
+		// announced must not cost gigabytes per input here)
+		rin := in
+		if len(in) >= 4 && binary.BigEndian.Uint32(in[:4]) > c23ReaderMaxAnnounce {
+			rin = bytes.Clone(in)
+			binary.BigEndian.PutUint32(rin[:4], c23ReaderMaxAnnounce-uint32(inIdx%4096))
+		}
+		if alloc && allocViolations > 60 {
+			r.Count("alloc_measurements_skipped_after_60_reader_violations", 1)
+		}
+		if alloc && allocViolations <= 60 {
 			// one measurement around everything that is done with this input;
 			// the calls are measured one by one only when the group is above
 			// the bound
@@ -1146,7 +1164,7 @@ func c23Hostile(r *verifrt.Run, rng *rand.Rand, cl *Client, corpus []c23Frame, a
 					c23Decode(w, cl, exact)
 				}
 				for _, p := range []*FramePool{nil, pool} {
-					if res := c23ReadFrame(in, p, limit); res.err == nil && p != nil && res.pan == "" {
+					if res := c23ReadFrame(rin, p, limit); res.err == nil && p != nil && res.pan == "" {
 						p.Put(res.frame)
 					}
 				}
@@ -1166,8 +1184,9 @@ func c23Hostile(r *verifrt.Run, rng *rand.Rand, cl *Client, corpus []c23Frame, a
 					}
 				}
 				for _, p := range []*FramePool{nil, pool} {
-					if dr := c23AllocDelta(func() { c23ReadFrame(in, p, limit) }); dr > allocBound {
+					if dr := c23AllocDelta(func() { c23ReadFrame(rin, p, limit) }); dr > allocBound {
 						attributed = true
+						allocViolations++
 						total := uint32(0)
 						if len(in) >= 4 {
 							total = binary.BigEndian.Uint32(in[:4])
@@ -1232,30 +1251,30 @@ func c23Hostile(r *verifrt.Run, rng *rand.Rand, cl *Client, corpus []c23Frame, a
 
 		// frame reader with a 4 KiB limit, pooled and unpooled
 		for _, p := range []*FramePool{nil, pool} {
-			res := c23ReadFrame(in, p, limit)
+			res := c23ReadFrame(rin, p, limit)
 			fr, err := res.frame, res.err
-			det := map[string]any{"input": fmt.Sprintf("%x", in), "class": class, "pooled": p != nil}
+			det := map[string]any{"input": fmt.Sprintf("%x", rin), "class": class, "pooled": p != nil}
 			if res.pan != "" {
 				det["panic"] = res.pan
 				r.Violation("frame-hostile:panic:readProtoFrame", det)
 				continue
 			}
 			total := uint32(0)
-			if len(in) >= 4 {
-				total = binary.BigEndian.Uint32(in[:4])
+			if len(rin) >= 4 {
+				total = binary.BigEndian.Uint32(rin[:4])
 			}
-			mustFail := len(in) < 4 || total < 8 || total > limit || int64(total) > int64(len(in))
+			mustFail := len(rin) < 4 || total < 8 || total > limit || int64(total) > int64(len(rin))
 			switch {
 			case err == nil && mustFail:
 				det["announced_len"] = total
 				r.Violation("frame-hostile:reader-accepted-malformed", det)
-			case err == nil && (len(fr) != int(total) || !bytes.Equal(fr, in[:total]) || res.left != len(in)-int(total)):
+			case err == nil && (len(fr) != int(total) || !bytes.Equal(fr, rin[:total]) || res.left != len(rin)-int(total)):
 				det["got_len"], det["announced_len"], det["left_in_reader"] = len(fr), total, res.left
 				r.Violation("frame-hostile:reader-frame-differs", det)
 			case err != nil && !mustFail:
 				det["error"] = err.Error()
 				r.Violation("frame-hostile:reader-rejected-wellformed", det)
-			case err != nil && len(in) >= 4 && total > limit && !errors.Is(err, ErrFrameTooLarge):
+			case err != nil && len(rin) >= 4 && total > limit && !errors.Is(err, ErrFrameTooLarge):
 				det["error"] = err.Error()
 				r.Violation("frame-hostile:oversized-not-reported-as-too-large", det)
 			}
